@@ -199,6 +199,21 @@ Theorem dmat_roundtrip_small_4 : forall v01 v02 v03 v10 v12 v13 v20 v21 v23 v30 
   dmat_of_dict d = Ok (mkDm [nA; nB; nC; nD] [[z0; v01; v02; v03]; [v10; z0; v12; v13]; [v20; v21; z0; v23]; [v30; v31; v32; z0]] inv).
 Proof. exact dmat_roundtrip_4. Qed.
 
+(** the reader of the pairs dict takes the STORED (a, b) whenever there is one - the mirror (b, a) is only a fill for
+    a missing key - so a full pairs dict (what [to_rich_dict] writes) reads back cell for cell, symmetric or not
+    ([dmat_roundtrip_small_*] quantify over independent v_ij and v_ji) *)
+Theorem dmat_cell_prefers_stored : forall T a b v, pget T a b = Some v -> dm_cell T a b = v.
+Proof. exact dm_cell_stored_lemma. Qed.
+
+Theorem dmat_cell_mirror_only_when_missing : forall T a b, pget T a b = None ->
+  dm_cell T a b = match pget T b a with Some v => v | None => JFloat float_zero end.
+Proof. exact dm_cell_mirror_lemma. Qed.
+
+Theorem dmat_asymmetric_example :
+  let m := mkDm [nA; nB; nC] [[z0; JFloat [49]; JFloat [50]]; [JFloat [55; 46; 53]; z0; JFloat [110; 97; 110]]; [JFloat [57]; JFloat [56]; z0]] JNull in
+  exists d, dmat_to_dict m = JObj d /\ dmat_of_dict d = Ok m.
+Proof. exact dmat_asymmetric_example_lemma. Qed.
+
 (** the full statement for distance matrices (NOT proved; decided by the correspondence + oracle):
     strictly sorted names, a square array of that size with 0.0 on the diagonal *)
 Definition stmt_dmat_roundtrip : Prop :=
